@@ -5,7 +5,6 @@ import (
 	"encoding/gob"
 	"fmt"
 	"time"
-	"unsafe"
 
 	"github.com/valyala/fastjson"
 )
@@ -245,10 +244,6 @@ func ToTombstone(it Item) (*Tombstone, error) {
 		return i, nil
 	case Tombstone:
 		return &i, nil
-	case *Object:
-		return (*Tombstone)(unsafe.Pointer(i)), nil
-	case Object:
-		return (*Tombstone)(unsafe.Pointer(&i)), nil
 	default:
 		return reflectItemToType[Tombstone](it)
 	}
